@@ -354,8 +354,30 @@ Proof.
         { unfold e. replace (pe p + off - 1 + N) with (pe p + off - 1 + 1 * N) by lia.
           rewrite Z.mod_add by lia. rewrite Z.mod_small by lia. lia. }
         destruct ((0 <=? s) && (s <? e) && (e <=? N)) eqn:Ein; [lia|].
+        destruct (pst p =? -1) eqn:Erev.
+        { (* reverse strand: the half after the origin is listed first *)
         cbn [app]. solve_forallb.
-        cbn [negb merge_adjacent ps pe pst].
+        cbn [negb merge_adjacent ps pe pst]. rewrite Erev. cbn [andb].
+        destruct (0 =? N) eqn:EN0; [lia|].
+        cbn [merge_adjacent rev app]. eexists. split; [reflexivity|].
+        split; [cbn; lia|].
+        split; [constructor; [cbn; lia|constructor; [cbn; lia|constructor]]|].
+        intros y Hy. unfold base_of, rot. split.
+        -- intros [q [[<-|[<-|[]]] Hq]]; cbn in Hq.
+           ++ exists (y - off). split; [lia|].
+              replace (y - off + off) with y by lia. symmetry. apply Z.mod_small. lia.
+           ++ exists (y - off - N). split; [lia|].
+              replace (y - off - N + off) with (y + (-1) * N) by lia.
+              rewrite Z.mod_add by lia. symmetry. apply Z.mod_small. lia.
+        -- intros [x [Hx ->]].
+           destruct (Z_lt_ge_dec (x + off) 0) as [Hneg|Hpos].
+           ++ eexists. split; [right; left; reflexivity|]. cbn.
+              replace (x + off) with (x + off + N + (-1) * N) by lia.
+              rewrite Z.mod_add by lia. rewrite Z.mod_small by lia. lia.
+           ++ eexists. split; [left; reflexivity|]. cbn.
+              rewrite Z.mod_small by lia. lia. }
+        cbn [app]. solve_forallb.
+        cbn [negb merge_adjacent ps pe pst]. rewrite Erev. cbn [andb].
         destruct (N =? 0) eqn:EN0; [lia|].
         cbn [merge_adjacent rev app]. eexists. split; [reflexivity|].
         split; [cbn; lia|].
@@ -382,8 +404,30 @@ Proof.
         { unfold e. replace (pe p + off - 1 + N) with (pe p + off - 1 - N + 2 * N) by lia.
           rewrite Z.mod_add by lia. rewrite Z.mod_small by lia. lia. }
         destruct ((0 <=? s) && (s <? e) && (e <=? N)) eqn:Ein; [lia|].
+        destruct (pst p =? -1) eqn:Erev.
+        { (* reverse strand: the half after the origin is listed first *)
         cbn [app]. solve_forallb.
-        cbn [negb merge_adjacent ps pe pst].
+        cbn [negb merge_adjacent ps pe pst]. rewrite Erev. cbn [andb].
+        destruct (0 =? N) eqn:EN0; [lia|].
+        cbn [merge_adjacent rev app]. eexists. split; [reflexivity|].
+        split; [cbn; lia|].
+        split; [constructor; [cbn; lia|constructor; [cbn; lia|constructor]]|].
+        intros y Hy. unfold base_of, rot. split.
+        -- intros [q [[<-|[<-|[]]] Hq]]; cbn in Hq.
+           ++ exists (y - off + N). split; [lia|].
+              replace (y - off + N + off) with (y + 1 * N) by lia.
+              rewrite Z.mod_add by lia. symmetry. apply Z.mod_small. lia.
+           ++ exists (y - off). split; [lia|].
+              replace (y - off + off) with y by lia. symmetry. apply Z.mod_small. lia.
+        -- intros [x [Hx ->]].
+           destruct (Z_lt_ge_dec (x + off) N) as [Hlow|Hhigh].
+           ++ eexists. split; [right; left; reflexivity|]. cbn.
+              rewrite Z.mod_small by lia. lia.
+           ++ eexists. split; [left; reflexivity|]. cbn.
+              replace (x + off) with (x + off - N + 1 * N) by lia.
+              rewrite Z.mod_add by lia. rewrite Z.mod_small by lia. lia. }
+        cbn [app]. solve_forallb.
+        cbn [negb merge_adjacent ps pe pst]. rewrite Erev. cbn [andb].
         destruct (N =? 0) eqn:EN0; [lia|].
         cbn [merge_adjacent rev app]. eexists. split; [reflexivity|].
         split; [cbn; lia|].
@@ -2417,29 +2461,6 @@ Proof.
       right. repeat split; [apply loc_eqb_eq; assumption|lia].
 Qed.
 
-(* ---------- offset_location on a ring: the two recorded finding classes ---------- *)
-Lemma offset_merge_drops_part_refuted :
-  exists a off N r,
-    pre_offset a (Some N) = true /\ offset_location a off (Some N) = Ok r /\
-    llen r <> llen a /\ in_loc 15 a = true /\ in_loc ((15 + off) mod N) r = false /\
-    check_offset_ring N a off (Ok r) = 4 /\ offset_class a off (Some N) = 1.
-Proof.
-  exists [mkPart 15 20 1; mkPart 0 5 1; mkPart 5 9 1], 5, 20, [mkPart 5 14 1].
-  vm_compute. repeat split; congruence.
-Qed.
-
-Lemma offset_reverse_wrap_order_refuted :
-  exists p off N r,
-    pst p = -1 /\ pre_offset [p] (Some N) = true /\ offset_location [p] off (Some N) = Ok r /\
-    rotated_bases N off r [p] = true /\
-    tx_bases r <> map (fun x => (x + off) mod N) (tx_bases [p]) /\
-    bridges r = false /\ connect_locations [r] (Some N) = Ok [mkPart 0 N (-1)] /\
-    check_offset_ring N [p] off (Ok r) = 7 /\ offset_class [p] off (Some N) = 2.
-Proof.
-  exists (mkPart 13 18 (-1)), 5, 20, [mkPart 18 20 (-1); mkPart 0 3 (-1)].
-  vm_compute. repeat split; congruence.
-Qed.
-
 (* soundness of the transcription-order clause of specification 107 *)
 Lemma check_offset_ring_tx_sound N a off out : check_offset_ring N a off out = 0 -> llen a <> N ->
   exists r, out = Ok r /\ tx_bases r = map (fun x => (x + off) mod N) (tx_bases a).
@@ -2456,10 +2477,7 @@ Proof.
 Qed.
 
 
-(* ---------- the final merge loop of offset_location (merge_adjacent) ----------
-   Guarded: when no touching pair of raw parts directly follows a touching pair, the loop keeps exactly the
-   bases and the length (every merged part is rebuilt from a previous part that is still unmerged).  Without
-   the guard: offset_merge_drops_part_refuted. *)
+(* ---------- the final merge loop of offset_location (merge_adjacent) ---------- *)
 Lemma existsb_rev {A} (f : A -> bool) l : existsb f (rev l) = existsb f l.
 Proof.
   induction l as [|x l IH]; [reflexivity|]. simpl. rewrite existsb_app, IH. simpl.
@@ -2480,69 +2498,634 @@ Proof.
   induction a as [|p a IH]; [reflexivity|]. simpl. rewrite llen_app, IH. unfold llen. simpl. lia.
 Qed.
 
-Definition next_free (prev : part) (l : list part) : Prop :=
-  match l with p :: _ => pe prev <> ps p | [] => True end.
+(* After the repair of findings C04-K2 offset_merge_drops_part and C04-K3 offset_reverse_wrap_order the loop keeps
+   exactly the bases, the length and the bases in TRANSCRIPTION order, for every list of proper parts of one
+   strand (no guard any more): forward parts are merged upwards into the last MERGED part, reverse-strand parts
+   downwards. *)
 
-Lemma merge_adjacent_inv st : forall l prev last acc,
+(* the bases of a list of exons in transcription order (rv: reverse strand) *)
+Definition tx_of (rv : bool) (l : list part) : list Z :=
+  if rv then flat_map (fun p => zdown (pe p) (pe p - ps p)) l
+  else flat_map (fun p => zrange (ps p) (pe p - ps p)) l.
+
+Lemma tx_bases_of l : tx_bases l = tx_of (lstrand l =? -1) l.
+Proof. reflexivity. Qed.
+
+Lemma tx_of_app rv a b : tx_of rv (a ++ b) = tx_of rv a ++ tx_of rv b.
+Proof. unfold tx_of. destruct rv; apply flat_map_app. Qed.
+
+Lemma tx_of_cons rv p l :
+  tx_of rv (p :: l) = (if rv then zdown (pe p) (pe p - ps p) else zrange (ps p) (pe p - ps p)) ++ tx_of rv l.
+Proof. unfold tx_of. destruct rv; reflexivity. Qed.
+
+Lemma zrange_n_app a n m : zrange_n a (n + m) = zrange_n a n ++ zrange_n (a + Z.of_nat n) m.
+Proof.
+  revert a. induction n as [|n IH]; intros a.
+  - cbn [Nat.add zrange_n app]. f_equal. lia.
+  - cbn [Nat.add zrange_n app]. rewrite IH. do 3 f_equal. lia.
+Qed.
+
+Lemma zrange_app a n m : 0 <= n -> 0 <= m -> zrange a (n + m) = zrange a n ++ zrange (a + n) m.
+Proof.
+  intros Hn Hm. unfold zrange. rewrite Z2Nat.inj_add by lia. rewrite zrange_n_app, Z2Nat.id by lia. reflexivity.
+Qed.
+
+Lemma zdown_n_app b n m : zdown_n b (n + m) = zdown_n b n ++ zdown_n (b - Z.of_nat n) m.
+Proof.
+  revert b. induction n as [|n IH]; intros b.
+  - cbn [Nat.add zdown_n app]. f_equal. lia.
+  - cbn [Nat.add zdown_n app]. rewrite IH. do 3 f_equal. lia.
+Qed.
+
+Lemma zdown_app b n m : 0 <= n -> 0 <= m -> zdown b (n + m) = zdown b n ++ zdown (b - n) m.
+Proof.
+  intros Hn Hm. unfold zdown. rewrite Z2Nat.inj_add by lia. rewrite zdown_n_app, Z2Nat.id by lia. reflexivity.
+Qed.
+
+(* downwards = upwards reversed *)
+Lemma zdown_n_rev : forall n b, zdown_n b n = rev (zrange_n (b - Z.of_nat n) n).
+Proof.
+  induction n as [|n IH]; intros b; [reflexivity|].
+  cbn [zdown_n]. replace (S n) with (n + 1)%nat at 2 by lia.
+  rewrite zrange_n_app, rev_app_distr. cbn [zrange_n rev app].
+  rewrite IH. f_equal; [lia|]. do 2 f_equal. lia.
+Qed.
+
+Lemma zdown_rev b n : zdown b n = rev (zrange (b - Z.max 0 n) n).
+Proof. unfold zdown, zrange. rewrite zdown_n_rev. do 3 f_equal. lia. Qed.
+
+Lemma zdown_spec b n x : In x (zdown b n) <-> b - n <= x < b.
+Proof.
+  rewrite zdown_rev, <- in_rev, zrange_spec. lia.
+Qed.
+
+Lemma in_loc_cons x p l : in_loc x (p :: l) = in_part x p || in_loc x l.
+Proof. reflexivity. Qed.
+
+Lemma llen_cons p l : llen (p :: l) = (pe p - ps p) + llen l.
+Proof. reflexivity. Qed.
+
+Lemma merge_adjacent_keeps st : forall l prev last acc,
   Forall (fun q => ps q <= pe q /\ pst q = st) (prev :: l) ->
-  ps last <= pe last -> pe last = pe prev ->
-  (last = prev \/ next_free prev l) ->
-  touching_run (prev :: l) = false ->
+  ps last <= pe last ->
+  (if st =? -1 then ps last = ps prev else pe last = pe prev) ->
   exists r, merge_adjacent prev (last :: acc) l = Ok r /\
     (forall x, in_loc x r = in_loc x (rev (last :: acc) ++ l)) /\
-    llen r = llen (rev (last :: acc)) + llen l.
+    llen r = llen (rev (last :: acc)) + llen l /\
+    tx_of (st =? -1) r = tx_of (st =? -1) (rev (last :: acc) ++ l).
 Proof.
-  induction l as [|p l IH]; intros prev last acc Hall Hlast Hpe Hnext Hrun.
-  - exists (rev (last :: acc)). cbn [merge_adjacent]. split; [reflexivity|]. split.
-    + intros x. rewrite app_nil_r. reflexivity.
-    + unfold llen at 3. simpl. lia.
+  induction l as [|p l IH]; intros prev last acc Hall Hlast Hinv.
+  - exists (rev (last :: acc)). cbn [merge_adjacent]. rewrite app_nil_r.
+    repeat split; try reflexivity. unfold llen at 3. simpl. lia.
   - cbn [merge_adjacent].
     assert (Hprev : ps prev <= pe prev /\ pst prev = st) by (inversion Hall; assumption).
     assert (Hall' : Forall (fun q => ps q <= pe q /\ pst q = st) (p :: l)) by (inversion Hall; assumption).
     assert (Hp : ps p <= pe p /\ pst p = st) by (inversion Hall'; assumption).
-    assert (Hrun' : touching_run (p :: l) = false).
-    { destruct l as [|q l']; [reflexivity|]. cbn [touching_run] in Hrun.
-      apply orb_false_iff in Hrun as [_ Hrun]. exact Hrun. }
-    destruct (pe prev =? ps p) eqn:Et.
-    + assert (Heq : last = prev).
-      { destruct Hnext as [H|H]; [assumption|]. cbn [next_free] in H. lia. }
-      subst last.
-      replace (pst prev =? pst p) with true by lia. cbn [negb].
-      destruct (IH p (mkPart (ps prev) (pe p) (pst p)) acc Hall') as [r [Hr [Hb Hl]]].
-      * cbn [ps pe]. lia.
-      * reflexivity.
-      * right. destruct l as [|q l']; [exact I|]. cbn [next_free]. cbn [touching_run] in Hrun.
-        apply orb_false_iff in Hrun as [Hrun _]. lia.
-      * exact Hrun'.
-      * exists r. split; [exact Hr|]. split.
-        -- intros x. rewrite Hb. cbn [rev]. rewrite !in_loc_app. cbn [in_loc existsb].
-           unfold in_loc. rewrite !orb_false_r. unfold in_part. cbn [ps pe].
-           destruct (existsb (fun p0 => (ps p0 <=? x) && (x <? pe p0)) (rev acc));
-             destruct (existsb (fun p0 => (ps p0 <=? x) && (x <? pe p0)) l); lia.
-        -- rewrite Hl. cbn [rev]. rewrite !llen_app. unfold llen. cbn [fold_right ps pe]. lia.
-    + destruct (IH p p (last :: acc) Hall') as [r [Hr [Hb Hl]]].
+    (* the two ways of merging, and not merging *)
+    assert (Hstep : forall last', ps last' <= pe last' ->
+              (if st =? -1 then ps last' = ps p else pe last' = pe p) ->
+              (forall x, in_part x last' = in_part x last || in_part x p) ->
+              pe last' - ps last' = (pe last - ps last) + (pe p - ps p) ->
+              tx_of (st =? -1) [last'] = tx_of (st =? -1) [last; p] ->
+              exists r, merge_adjacent p (last' :: acc) l = Ok r /\
+                (forall x, in_loc x r = in_loc x (rev (last :: acc) ++ p :: l)) /\
+                llen r = llen (rev (last :: acc)) + llen (p :: l) /\
+                tx_of (st =? -1) r = tx_of (st =? -1) (rev (last :: acc) ++ p :: l)).
+    { intros last' H1 H2 H3 H4 H5.
+      destruct (IH p last' acc Hall' H1 H2) as [r [Hr [Hb [Hl Ht]]]].
+      exists r. split; [exact Hr|]. split; [|split].
+      - intros x. rewrite Hb. cbn [rev]. rewrite <- !app_assoc. cbn [app].
+        rewrite !in_loc_app, !in_loc_cons, H3.
+        destruct (in_loc x (rev acc)), (in_part x last), (in_part x p), (in_loc x l); reflexivity.
+      - rewrite Hl. cbn [rev]. rewrite !llen_app, !llen_cons. change (llen []) with 0. lia.
+      - rewrite Ht. cbn [rev]. rewrite <- !app_assoc. cbn [app].
+        rewrite !tx_of_app. f_equal.
+        change (last' :: l) with ([last'] ++ l). change (last :: p :: l) with ([last; p] ++ l).
+        rewrite !tx_of_app, H5. reflexivity. }
+    assert (Hkeep : exists r, merge_adjacent p (p :: last :: acc) l = Ok r /\
+                (forall x, in_loc x r = in_loc x (rev (last :: acc) ++ p :: l)) /\
+                llen r = llen (rev (last :: acc)) + llen (p :: l) /\
+                tx_of (st =? -1) r = tx_of (st =? -1) (rev (last :: acc) ++ p :: l)).
+    { destruct (IH p p (last :: acc) Hall') as [r [Hr [Hb [Hl Ht]]]].
+      - lia.
+      - destruct (st =? -1); reflexivity.
+      - exists r. split; [exact Hr|]. split; [|split].
+        + intros x. rewrite Hb. cbn [rev]. rewrite <- !app_assoc. reflexivity.
+        + rewrite Hl. cbn [rev]. rewrite !llen_app, !llen_cons. change (llen []) with 0. lia.
+        + rewrite Ht. cbn [rev]. rewrite <- !app_assoc. reflexivity. }
+    destruct (st =? -1) eqn:Est.
+    + (* reverse strand: downwards *)
+      replace ((pst prev =? -1) && (pst p =? -1)) with true by lia.
+      destruct (ps prev =? pe p) eqn:Et; [|exact Hkeep].
+      apply Hstep; cbn [ps pe pst].
       * lia.
       * reflexivity.
-      * left. reflexivity.
-      * exact Hrun'.
-      * exists r. split; [exact Hr|]. split.
-        -- intros x. rewrite Hb. cbn [rev]. rewrite <- !app_assoc. reflexivity.
-        -- rewrite Hl. cbn [rev]. rewrite !llen_app. unfold llen. cbn [fold_right]. lia.
+      * intros x. unfold in_part. cbn [ps pe]. lia.
+      * lia.
+      * unfold tx_of. cbn [flat_map ps pe]. rewrite !app_nil_r.
+        replace (pe last - ps p) with ((pe last - ps last) + (pe p - ps p)) by lia.
+        rewrite zdown_app by lia. do 2 f_equal. lia.
+    + replace ((pst prev =? -1) && (pst p =? -1)) with false by lia.
+      destruct (pe prev =? ps p) eqn:Et; [|exact Hkeep].
+      replace (pst prev =? pst p) with true by lia. cbn [negb].
+      apply Hstep; cbn [ps pe pst].
+      * lia.
+      * reflexivity.
+      * intros x. unfold in_part. cbn [ps pe]. lia.
+      * lia.
+      * unfold tx_of. cbn [flat_map ps pe]. rewrite !app_nil_r.
+        replace (pe p - ps last) with ((pe last - ps last) + (pe p - ps p)) by lia.
+        rewrite zrange_app by lia. do 2 f_equal. lia.
 Qed.
 
-Lemma merge_adjacent_guarded st p0 l :
+Lemma merge_adjacent_unguarded st p0 l :
   Forall (fun q => ps q <= pe q /\ pst q = st) (p0 :: l) ->
-  touching_run (p0 :: l) = false ->
   exists r, merge_adjacent p0 [p0] l = Ok r /\
-    (forall x, in_loc x r = in_loc x (p0 :: l)) /\ llen r = llen (p0 :: l).
+    (forall x, in_loc x r = in_loc x (p0 :: l)) /\ llen r = llen (p0 :: l) /\
+    tx_of (st =? -1) r = tx_of (st =? -1) (p0 :: l).
 Proof.
-  intros Hall Hrun.
-  destruct (merge_adjacent_inv st l p0 p0 [] Hall) as [r [Hr [Hb Hl]]].
+  intros Hall.
+  destruct (merge_adjacent_keeps st l p0 p0 [] Hall) as [r [Hr [Hb [Hl Ht]]]].
   - inversion Hall; lia.
-  - reflexivity.
-  - left. reflexivity.
-  - exact Hrun.
-  - exists r. split; [exact Hr|]. split.
+  - destruct (st =? -1); reflexivity.
+  - exists r. split; [exact Hr|]. split; [|split].
     + intros x. rewrite Hb. reflexivity.
     + rewrite Hl. unfold llen. simpl. lia.
+    + rewrite Ht. reflexivity.
+Qed.
+
+(* parts inside the record, non-empty, of one strand *)
+Definition wfps (N st : Z) (q : part) : Prop := 0 <= ps q /\ ps q < pe q /\ pe q <= N /\ pst q = st.
+
+Lemma merge_adjacent_wf N st : forall l prev last acc r,
+  Forall (wfps N st) (prev :: l) -> Forall (wfps N st) (last :: acc) ->
+  (if st =? -1 then ps last = ps prev else pe last = pe prev) ->
+  merge_adjacent prev (last :: acc) l = Ok r -> Forall (wfps N st) r /\ r <> [].
+Proof.
+  induction l as [|p l IH]; intros prev last acc r Hall Hacc Hinv.
+  - cbn [merge_adjacent]. intros H. injection H as <-. split.
+    + change (rev acc ++ [last]) with (rev (last :: acc)). apply Forall_rev. exact Hacc.
+    + intros E. apply app_eq_nil in E. destruct E; discriminate.
+  - cbn [merge_adjacent].
+    assert (Hprev : wfps N st prev) by (inversion Hall; assumption).
+    assert (Hall' : Forall (wfps N st) (p :: l)) by (inversion Hall; assumption).
+    assert (Hp : wfps N st p) by (inversion Hall'; assumption).
+    assert (Hlast : wfps N st last) by (inversion Hacc; assumption).
+    assert (Hacc' : Forall (wfps N st) acc) by (inversion Hacc; assumption).
+    unfold wfps in Hprev, Hp, Hlast.
+    assert (Hkeep : merge_adjacent p (p :: last :: acc) l = Ok r -> Forall (wfps N st) r /\ r <> []).
+    { apply IH; [exact Hall'|constructor; [exact Hp|exact Hacc]|destruct (st =? -1); reflexivity]. }
+    destruct (st =? -1) eqn:Est.
+    + replace ((pst prev =? -1) && (pst p =? -1)) with true by lia.
+      destruct (ps prev =? pe p) eqn:Et; [|exact Hkeep].
+      apply IH; [exact Hall'| |try rewrite Est; reflexivity].
+      constructor; [|exact Hacc']. unfold wfps. cbn [ps pe pst]. lia.
+    + replace ((pst prev =? -1) && (pst p =? -1)) with false by lia.
+      destruct (pe prev =? ps p) eqn:Et; [|exact Hkeep].
+      replace (pst prev =? pst p) with true by lia. cbn [negb].
+      apply IH; [exact Hall'| |try rewrite Est; reflexivity].
+      constructor; [|exact Hacc']. unfold wfps. cbn [ps pe pst]. lia.
+Qed.
+
+(* ---------- offset_location on a ring, any number of parts ---------- *)
+Lemma mod_eq x N k r : 0 <= r < N -> x = k * N + r -> x mod N = r.
+Proof. intros Hr ->. rewrite Z.add_comm, Z.mod_add by lia. apply Z.mod_small. assumption. Qed.
+
+Lemma rot_zrange_n N off : 0 < N -> forall n a, (a + off) mod N + Z.of_nat n <= N ->
+  map (rot N off) (zrange_n a n) = zrange_n ((a + off) mod N) n.
+Proof.
+  intros HN. induction n as [|n IH]; intros a H; [reflexivity|].
+  cbn [zrange_n map]. f_equal. destruct n as [|n]; [reflexivity|].
+  pose proof (Z.div_mod (a + off) N ltac:(lia)) as Hd.
+  pose proof (Z.mod_pos_bound (a + off) N HN) as Hb.
+  set (m := (a + off) / N) in *. set (s0 := (a + off) mod N) in *.
+  assert (E : (a + 1 + off) mod N = s0 + 1).
+  { apply (mod_eq _ N m); lia. }
+  rewrite IH; rewrite E; [reflexivity|lia].
+Qed.
+
+Lemma rot_zrange N off a n : 0 < N -> (a + off) mod N + n <= N ->
+  map (rot N off) (zrange a n) = zrange ((a + off) mod N) n.
+Proof.
+  intros HN H. unfold zrange. apply rot_zrange_n; [assumption|].
+  pose proof (Z.mod_pos_bound (a + off) N HN). set (s0 := (a + off) mod N) in *. lia.
+Qed.
+
+Lemma rot_zdown_n N off : 0 < N -> forall n b, Z.of_nat n <= (b - 1 + off) mod N + 1 ->
+  map (rot N off) (zdown_n b n) = zdown_n ((b - 1 + off) mod N + 1) n.
+Proof.
+  intros HN. induction n as [|n IH]; intros b H; [reflexivity|].
+  cbn [zdown_n map]. f_equal; [unfold rot; lia|]. destruct n as [|n]; [reflexivity|].
+  pose proof (Z.div_mod (b - 1 + off) N ltac:(lia)) as Hd.
+  pose proof (Z.mod_pos_bound (b - 1 + off) N HN) as Hb.
+  set (m := (b - 1 + off) / N) in *. set (s0 := (b - 1 + off) mod N) in *.
+  assert (E : (b - 1 - 1 + off) mod N = s0 - 1).
+  { apply (mod_eq _ N m); lia. }
+  rewrite IH; rewrite E; [f_equal; lia|lia].
+Qed.
+
+Lemma rot_zdown N off b n : 0 < N -> n <= (b - 1 + off) mod N + 1 ->
+  map (rot N off) (zdown b n) = zdown ((b - 1 + off) mod N + 1) n.
+Proof.
+  intros HN H. unfold zdown. apply rot_zdown_n; [assumption|].
+  pose proof (Z.mod_pos_bound (b - 1 + off) N HN). set (s0 := (b - 1 + off) mod N) in *. lia.
+Qed.
+
+(* what offset_location does to one shifted part *)
+Definition split_part (N : Z) (q : part) : list part :=
+  let s := (ps q + N) mod N in
+  let e := (pe q - 1 + N) mod N + 1 in
+  if (0 <=? s) && (s <? e) && (e <=? N) then [mkPart s e (pst q)]
+  else if pst q =? -1 then [mkPart 0 e (pst q); mkPart s N (pst q)]
+  else [mkPart s N (pst q); mkPart 0 e (pst q)].
+Definition shift_p (off : Z) (p : part) : part := mkPart (ps p + off) (pe p + off) (pst p).
+
+Lemma split_part_tx N off st p : 0 < N -> wfps N st p ->
+  tx_of (st =? -1) (split_part N (shift_p off p)) = map (rot N off) (tx_of (st =? -1) [p]) /\
+  Forall (wfps N st) (split_part N (shift_p off p)) /\ split_part N (shift_p off p) <> [].
+Proof.
+  intros HN (H0 & Hlt & HeN & Hst). unfold split_part, shift_p. cbn [ps pe pst].
+  pose proof (Z.div_mod (ps p + off) N ltac:(lia)) as Hd.
+  pose proof (Z.mod_pos_bound (ps p + off) N HN) as Hb.
+  set (m := (ps p + off) / N) in *. set (s0 := (ps p + off) mod N) in *.
+  set (len := pe p - ps p).
+  assert (Es : (ps p + off + N) mod N = s0) by (apply (mod_eq _ N (m + 1)); lia).
+  rewrite Es.
+  destruct (Z_le_gt_dec (s0 + len) N) as [Hfit|Hwrap].
+  - (* no split *)
+    assert (Ee : (pe p + off - 1 + N) mod N + 1 = s0 + len).
+    { rewrite (mod_eq _ N (m + 1) (s0 + len - 1)); unfold len; lia. }
+    rewrite Ee. replace ((0 <=? s0) && (s0 <? s0 + len) && (s0 + len <=? N)) with true by (unfold len; lia).
+    split; [|split; [|discriminate]].
+    + unfold tx_of. destruct (st =? -1); cbn [flat_map ps pe]; rewrite !app_nil_r.
+      * rewrite rot_zdown.
+        -- replace (pe p - 1 + off) with (pe p + off - 1 + N + (-1) * N) by lia.
+           rewrite Z.mod_add by lia. rewrite Ee. f_equal. unfold len. lia.
+        -- assumption.
+        -- replace (pe p - 1 + off) with (pe p + off - 1 + N + (-1) * N) by lia.
+           rewrite Z.mod_add by lia. rewrite Ee. unfold len. lia.
+      * rewrite rot_zrange by (fold s0; fold len; lia). fold s0. f_equal. unfold len. lia.
+    + constructor; [|constructor]. unfold wfps. cbn [ps pe pst]. unfold len. lia.
+  - (* split at the wrap point *)
+    assert (Ee : (pe p + off - 1 + N) mod N + 1 = s0 + len - N).
+    { rewrite (mod_eq _ N (m + 2) (s0 + len - N - 1)); unfold len; lia. }
+    rewrite Ee.
+    replace ((0 <=? s0) && (s0 <? s0 + len - N) && (s0 + len - N <=? N)) with false by (unfold len; lia).
+    split; [|split].
+    + destruct (st =? -1) eqn:Est.
+      * replace (pst p =? -1) with true by lia.
+        unfold tx_of. cbn [flat_map ps pe]. rewrite !app_nil_r.
+        replace (pe p - ps p) with ((s0 + len - N) + (N - s0)) by (unfold len; lia).
+        rewrite zdown_app by (unfold len; lia). rewrite map_app.
+        assert (E1 : (pe p - 1 + off) mod N + 1 = s0 + len - N).
+        { rewrite (mod_eq _ N (m + 1) (s0 + len - N - 1)); unfold len; lia. }
+        assert (E2 : (pe p - (s0 + len - N) - 1 + off) mod N + 1 = N).
+        { rewrite (mod_eq _ N m (N - 1)); unfold len; lia. }
+        rewrite !rot_zdown by lia. rewrite E1, E2. f_equal; f_equal; lia.
+      * replace (pst p =? -1) with false by lia.
+        unfold tx_of. cbn [flat_map ps pe]. rewrite !app_nil_r.
+        replace (pe p - ps p) with ((N - s0) + (s0 + len - N)) by (unfold len; lia).
+        rewrite zrange_app by (unfold len; lia). rewrite map_app.
+        assert (E2 : (ps p + (N - s0) + off) mod N = 0).
+        { apply (mod_eq _ N (m + 1)); lia. }
+        rewrite !rot_zrange by (try rewrite E2; fold s0; unfold len; lia).
+        rewrite E2. fold s0. f_equal; f_equal; lia.
+    + destruct (pst p =? -1); (constructor; [|constructor; [|constructor]]); unfold wfps; cbn [ps pe pst];
+        unfold len in *; lia.
+    + destruct (pst p =? -1); discriminate.
+Qed.
+
+Lemma tx_of_split_all N off st : 0 < N -> forall l, Forall (wfps N st) l ->
+  tx_of (st =? -1) (flat_map (fun p => split_part N (shift_p off p)) l) = map (rot N off) (tx_of (st =? -1) l) /\
+  Forall (wfps N st) (flat_map (fun p => split_part N (shift_p off p)) l).
+Proof.
+  intros HN. induction l as [|p l IH]; intros H.
+  - split; [destruct (st =? -1); reflexivity|constructor].
+  - inversion H as [|? ? Hp Hl]; subst. destruct (IH Hl) as [IH1 IH2].
+    destruct (split_part_tx N off st p HN Hp) as [H1 [H2 _]].
+    cbn [flat_map]. split.
+    + change (p :: l) with ([p] ++ l). rewrite !tx_of_app, map_app, H1, IH1. reflexivity.
+    + apply Forall_app. split; assumption.
+Qed.
+
+Lemma lstrand_uniform st (l : loc) : l <> [] -> Forall (fun q => pst q = st) l -> lstrand l = st.
+Proof.
+  destruct l as [|p l]; [congruence|]. intros _ H. inversion H as [|? ? Hp Hl]; subst. unfold lstrand.
+  replace (forallb (fun q => pst q =? pst p) l) with true; [reflexivity|].
+  symmetry. apply forallb_forall. intros q Hq. rewrite Forall_forall in Hl. specialize (Hl q Hq). lia.
+Qed.
+
+Lemma wfp_strand N st l : Forall (wfps N st) l -> Forall (fun q => pst q = st) l.
+Proof. apply Forall_impl. intros q H. apply H. Qed.
+
+Lemma tx_of_range N st rv l : Forall (wfps N st) l -> forall x, In x (tx_of rv l) -> 0 <= x < N.
+Proof.
+  intros H x Hx. unfold tx_of in Hx. rewrite Forall_forall in H.
+  destruct rv; apply in_flat_map in Hx as [p [Hp Hx]]; specialize (H p Hp); unfold wfps in H.
+  - apply zdown_spec in Hx. lia.
+  - apply zrange_spec in Hx. lia.
+Qed.
+
+(* the trivial path: every part is shifted and stays inside the record *)
+Lemma tx_of_shift_all N off st : 0 < N -> forall l,
+  Forall (fun p => wfps N st p /\ 0 <= ps p + off /\ pe p + off <= N) l ->
+  tx_of (st =? -1) (map (shift_p off) l) = map (rot N off) (tx_of (st =? -1) l).
+Proof.
+  intros HN. induction l as [|p l IH]; intros H; [destruct (st =? -1); reflexivity|].
+  inversion H as [|? ? [Hp [Hlo Hhi]] Hl]; subst. cbn [map].
+  rewrite !tx_of_cons, map_app, (IH Hl). f_equal. unfold wfps in Hp. unfold shift_p. cbn [ps pe].
+  destruct (st =? -1).
+  - assert (E : (pe p - 1 + off) mod N + 1 = pe p + off) by (rewrite Z.mod_small; lia).
+    rewrite rot_zdown by lia. rewrite E. f_equal. lia.
+  - assert (E : (ps p + off) mod N = ps p + off) by (apply Z.mod_small; lia).
+    rewrite rot_zrange by lia. rewrite E. f_equal. lia.
+Qed.
+
+Lemma shifted_ok (l : loc) off : off <> 0 -> Forall (fun p => ps p < pe p) l ->
+  shifted l off true = Ok (map (shift_p off) l).
+Proof.
+  intros Hoff H. unfold shifted. replace (off =? 0) with false by lia.
+  apply mapM_ok. intros p Hp. rewrite Forall_forall in H. specialize (H p Hp).
+  replace (negb (ps p + off <? pe p + off)) with false by lia. reflexivity.
+Qed.
+
+Lemma flat_map_map {A B C} (f : B -> list C) (g : A -> B) l :
+  flat_map f (map g l) = flat_map (fun x => f (g x)) l.
+Proof. induction l as [|x l IH]; [reflexivity|]. cbn [map flat_map]. rewrite IH. reflexivity. Qed.
+
+Lemma wfp_of_wf_locb N a : wf_locb N a = true -> uniform_strand a = true ->
+  exists st, a <> [] /\ Forall (wfps N st) a.
+Proof.
+  intros Hwf Hu. apply wf_locb_spec in Hwf as [Hne Hwf].
+  destruct a as [|p a]; [congruence|]. exists (pst p). split; [discriminate|].
+  unfold uniform_strand in Hu. rewrite forallb_forall in Hu.
+  inversion Hwf as [|? ? Hp Ha]; subst. constructor; [unfold wfps; lia|].
+  rewrite Forall_forall in *. intros q Hq. specialize (Ha q Hq). specialize (Hu q Hq). unfold wfps. lia.
+Qed.
+
+(* offset_location on a ring, every well-formed location of one strand that is not the whole record: the call
+   succeeds, the result's parts are non-empty, inside the record and of the same strand, and the bases of the
+   result in TRANSCRIPTION order are the rotated bases of the input in transcription order *)
+Lemma offset_ring_tx_of N st a off : 0 < N -> a <> [] -> Forall (wfps N st) a -> llen a <> N ->
+  exists r, offset_location a off (Some N) = Ok r /\ r <> [] /\ Forall (wfps N st) r /\
+    tx_of (st =? -1) r = map (rot N off) (tx_of (st =? -1) a).
+Proof.
+  intros HN Hne Hwf Hlen. unfold offset_location.
+  replace (N =? 0) with false by lia. cbn [orb].
+  assert (Hproper : Forall (fun p => ps p < pe p) a).
+  { eapply Forall_impl; [|exact Hwf]. intros q Hq. apply Hq. }
+  destruct (off =? 0) eqn:Eoff.
+  - (* no shift *)
+    unfold shifted. rewrite Eoff. exists a. repeat split; try assumption.
+    assert (off = 0) by lia. subst off.
+    rewrite <- (map_id (tx_of (st =? -1) a)) at 1. apply map_ext_in.
+    intros x Hx. pose proof (tx_of_range N st _ a Hwf x Hx). unfold rot. rewrite Z.add_0_r, Z.mod_small; lia.
+  - replace (N <? 1) with false by lia. replace (llen a =? N) with false by lia.
+    rewrite (shifted_ok a off ltac:(lia) Hproper).
+    destruct ((0 <=? lstart a + off) && (lstart a + off <? lend a + off) && (lend a + off <=? N)) eqn:Etriv.
+    + (* every part stays inside the record *)
+      exists (map (shift_p off) a).
+      assert (Hb : Forall (fun p => wfps N st p /\ 0 <= ps p + off /\ pe p + off <= N) a).
+      { rewrite Forall_forall in *. intros p Hp. split; [apply Hwf; assumption|].
+        assert (lstart a <= ps p) by (apply lmin_le, in_map; assumption).
+        assert (pe p <= lend a) by (apply lmax_ge, in_map; assumption).
+        lia. }
+      split; [reflexivity|]. split; [destruct a; [congruence|discriminate]|]. split.
+      * rewrite Forall_forall in *. intros q Hq. apply in_map_iff in Hq as [p [<- Hp]].
+        destruct (Hb p Hp) as [(H1 & H2 & H3 & H4) [H5 H6]]. unfold wfps, shift_p. cbn [ps pe pst]. lia.
+      * apply tx_of_shift_all; assumption.
+    + (* the wrapping path *)
+      cbn [bind]. rewrite flat_map_map.
+      change (flat_map _ a) with (flat_map (fun p => split_part N (shift_p off p)) a).
+      destruct (tx_of_split_all N off st HN a Hwf) as [Htx Hall].
+      set (new_parts := flat_map (fun p => split_part N (shift_p off p)) a) in *.
+      replace (forallb (fun p => (0 <=? ps p) && (ps p <? pe p) && (pe p <=? N)) new_parts) with true.
+      2:{ symmetry. apply forallb_forall. intros q Hq. rewrite Forall_forall in Hall.
+          specialize (Hall q Hq). unfold wfps in Hall. lia. }
+      cbn [negb].
+      destruct new_parts as [|p0 rest] eqn:Enew.
+      { exfalso. destruct a as [|p a']; [congruence|]. unfold new_parts in Enew. cbn [flat_map] in Enew.
+        inversion Hwf as [|? ? Hp _]; subst.
+        destruct (split_part_tx N off st p HN Hp) as [_ [_ Hnn]].
+        apply app_eq_nil in Enew. destruct Enew. contradiction. }
+      destruct (merge_adjacent_unguarded st p0 rest) as [r [Hr [_ [_ Ht]]]].
+      { eapply Forall_impl; [|exact Hall]. intros q Hq. unfold wfps in Hq. lia. }
+      exists r. split; [exact Hr|].
+      destruct (merge_adjacent_wf N st rest p0 p0 [] r Hall) as [Hwr Hnr].
+      { constructor; [inversion Hall; assumption|constructor]. }
+      { destruct (st =? -1); reflexivity. }
+      { exact Hr. }
+      split; [exact Hnr|]. split; [exact Hwr|]. rewrite Ht. exact Htx.
+Qed.
+
+(* ---------- specification 107 holds for the model ---------- *)
+Lemma zrange_n_length a n : length (zrange_n a n) = n.
+Proof. revert a. induction n as [|n IH]; intros a; [reflexivity|]. cbn [zrange_n length]. rewrite IH. reflexivity. Qed.
+
+Lemma zrange_n_NoDup : forall n a, NoDup (zrange_n a n).
+Proof.
+  induction n as [|n IH]; intros a; [constructor|]. cbn [zrange_n]. constructor; [|apply IH].
+  rewrite zrange_n_spec. lia.
+Qed.
+
+Lemma tx_piece_length (rv : bool) p : ps p <= pe p ->
+  Z.of_nat (length (if rv then zdown (pe p) (pe p - ps p) else zrange (ps p) (pe p - ps p))) = pe p - ps p.
+Proof.
+  intros H. destruct rv.
+  - rewrite zdown_rev, rev_length. unfold zrange. rewrite zrange_n_length. lia.
+  - unfold zrange. rewrite zrange_n_length. lia.
+Qed.
+
+Lemma tx_of_length rv l : Forall (fun q => ps q <= pe q) l -> Z.of_nat (length (tx_of rv l)) = llen l.
+Proof.
+  induction l as [|p l IH]; intros H; [destruct rv; reflexivity|].
+  inversion H as [|? ? Hp Hl]; subst. rewrite tx_of_cons, app_length, Nat2Z.inj_add, (IH Hl), llen_cons.
+  rewrite tx_piece_length by assumption. reflexivity.
+Qed.
+
+Lemma tx_piece_in (rv : bool) p x :
+  In x (if rv then zdown (pe p) (pe p - ps p) else zrange (ps p) (pe p - ps p)) <-> in_part x p = true.
+Proof. destruct rv; [rewrite zdown_spec|rewrite zrange_spec]; unfold in_part; lia. Qed.
+
+Lemma tx_of_in rv l x : In x (tx_of rv l) <-> in_loc x l = true.
+Proof.
+  induction l as [|p l IH]; [destruct rv; cbn; (split; [tauto|discriminate])|].
+  rewrite tx_of_cons, in_app_iff, tx_piece_in, IH, in_loc_cons, orb_true_iff. reflexivity.
+Qed.
+
+Lemma tx_piece_NoDup (rv : bool) p : NoDup (if rv then zdown (pe p) (pe p - ps p) else zrange (ps p) (pe p - ps p)).
+Proof.
+  destruct rv; [rewrite zdown_rev; apply NoDup_rev|]; unfold zrange; apply zrange_n_NoDup.
+Qed.
+
+Lemma NoDup_app_intro {A} (a b : list A) :
+  NoDup a -> NoDup b -> (forall x, In x a -> In x b -> False) -> NoDup (a ++ b).
+Proof.
+  induction a as [|y a IH]; intros Ha Hb Hd; [exact Hb|].
+  inversion Ha as [|? ? Hy Ha']; subst. cbn [app]. constructor.
+  - rewrite in_app_iff. intros [H|H]; [contradiction|]. apply (Hd y); [left; reflexivity|assumption].
+  - apply IH; [assumption|assumption|]. intros x H1 H2. apply (Hd x); [right; assumption|assumption].
+Qed.
+
+Lemma NoDup_app_inv {A} (a b : list A) :
+  NoDup (a ++ b) -> NoDup b /\ (forall x, In x a -> In x b -> False).
+Proof.
+  induction a as [|y a IH]; intros H; [split; [exact H|intros x Hx; destruct Hx]|].
+  cbn [app] in H. inversion H as [|? ? Hy H']; subst. destruct (IH H') as [Hb Hd]. split; [exact Hb|].
+  intros x [<-|Hx] Hxb; [apply Hy; rewrite in_app_iff; right; assumption|apply (Hd x); assumption].
+Qed.
+
+Lemma disjoint_parts_tx rv l : Forall (fun q => ps q < pe q) l ->
+  (disjoint_parts l = true <-> NoDup (tx_of rv l)).
+Proof.
+  induction l as [|p l IH]; intros H; [destruct rv; cbn; (split; [constructor|reflexivity])|].
+  inversion H as [|? ? Hp Hl]; subst. cbn [disjoint_parts]. rewrite tx_of_cons, andb_true_iff, (IH Hl). split.
+  - intros [Hd Hn]. apply NoDup_app_intro; [apply tx_piece_NoDup|exact Hn|].
+    intros x H1 H2. apply tx_piece_in in H1. apply tx_of_in in H2.
+    unfold in_loc in H2. apply existsb_exists in H2 as [q [Hq Hx]].
+    rewrite forallb_forall in Hd. specialize (Hd q Hq). unfold in_part in *. lia.
+  - intros Hn. apply NoDup_app_inv in Hn as [Hn Hd]. split; [|exact Hn].
+    apply forallb_forall. intros q Hq.
+    destruct ((pe p <=? ps q) || (pe q <=? ps p)) eqn:E; [reflexivity|exfalso].
+    rewrite Forall_forall in Hl. specialize (Hl q Hq).
+    apply (Hd (Z.max (ps p) (ps q))).
+    + apply tx_piece_in. unfold in_part. lia.
+    + apply tx_of_in. unfold in_loc. apply existsb_exists. exists q. split; [assumption|]. unfold in_part. lia.
+Qed.
+
+Lemma NoDup_map_inj_in {A B} (f : A -> B) l :
+  (forall x y, In x l -> In y l -> f x = f y -> x = y) -> NoDup l -> NoDup (map f l).
+Proof.
+  induction l as [|a l IH]; intros Hinj Hn; [constructor|].
+  inversion Hn as [|? ? Ha Hl]; subst. cbn [map]. constructor.
+  - intros Hin. apply in_map_iff in Hin as [y [Hy Hin]]. apply Ha.
+    rewrite (Hinj a y); [assumption|left; reflexivity|right; assumption|symmetry; assumption].
+  - apply IH; [|assumption]. intros x y Hx Hy. apply Hinj; right; assumption.
+Qed.
+
+Lemma rot_inj N off x y : 0 < N -> 0 <= x < N -> 0 <= y < N -> rot N off x = rot N off y -> x = y.
+Proof.
+  intros HN Hx Hy. unfold rot. intros E.
+  pose proof (Z.div_mod (x + off) N ltac:(lia)) as H1. pose proof (Z.div_mod (y + off) N ltac:(lia)) as H2.
+  rewrite E in H1. set (r := (y + off) mod N) in *. set (q1 := (x + off) / N) in *. set (q2 := (y + off) / N) in *.
+  assert (q1 = q2) by nia. subst q1. lia.
+Qed.
+
+(* specification 107 (all seven clauses of check_offset_ring) holds for the model on every input that meets its
+   precondition and is not the whole record (a whole-record location is returned as it is) *)
+Lemma offset_ring_spec N a off : pre_offset a (Some N) = true -> llen a <> N ->
+  exists r, offset_location a off (Some N) = Ok r /\ check_offset_ring N a off (Ok r) = 0.
+Proof.
+  unfold pre_offset. intros Hpre Hlen.
+  apply andb_true_iff in Hpre as [Hpre Hwf]. apply andb_true_iff in Hpre as [Hdis Hu].
+  apply andb_true_iff in Hwf as [HN Hwf]. assert (HN' : 0 < N) by lia.
+  destruct (wfp_of_wf_locb N a Hwf Hu) as [st [Hne Hall]].
+  destruct (offset_ring_tx_of N st a off HN' Hne Hall Hlen) as [r [Hr [Hnr [Hwr Htx]]]].
+  exists r. split; [exact Hr|].
+  assert (Hpa : Forall (fun q => ps q < pe q) a) by (eapply Forall_impl; [|exact Hall]; intros q Hq; apply Hq).
+  assert (Hpr : Forall (fun q => ps q < pe q) r) by (eapply Forall_impl; [|exact Hwr]; intros q Hq; apply Hq).
+  assert (Hsa : lstrand a = st) by (apply lstrand_uniform; [assumption|eapply wfp_strand; eassumption]).
+  assert (Hsr : lstrand r = st) by (apply lstrand_uniform; [assumption|eapply wfp_strand; eassumption]).
+  unfold check_offset_ring.
+  (* 2: well-formed *)
+  replace (wf_locb N r) with true.
+  2:{ symmetry. apply wf_locb_spec. split; [assumption|]. eapply Forall_impl; [|exact Hwr].
+      intros q Hq. unfold wfps in Hq. lia. }
+  cbn [negb].
+  (* 3: disjoint *)
+  replace (disjoint_parts r) with true.
+  2:{ symmetry. apply (disjoint_parts_tx (st =? -1) r Hpr). rewrite Htx. apply NoDup_map_inj_in.
+      - intros x y Hx Hy. apply rot_inj; [assumption|apply (tx_of_range N st (st =? -1) a Hall); assumption|apply (tx_of_range N st (st =? -1) a Hall); assumption].
+      - apply (disjoint_parts_tx (st =? -1) a Hpa). exact Hdis. }
+  cbn [negb].
+  (* 4: length *)
+  replace (llen r =? llen a) with true.
+  2:{ symmetry. apply Z.eqb_eq.
+      rewrite <- (tx_of_length (st =? -1) r), <- (tx_of_length (st =? -1) a), Htx, map_length; [reflexivity| |].
+      - eapply Forall_impl; [|exact Hpa]. intros q Hq. cbn beta in Hq. lia.
+      - eapply Forall_impl; [|exact Hpr]. intros q Hq. cbn beta in Hq. lia. }
+  cbn [negb].
+  (* 5: strand *)
+  replace (same_strands r a) with true.
+  2:{ symmetry. unfold same_strands. destruct a as [|p a']; [reflexivity|]. apply forallb_forall. intros q Hq.
+      inversion Hall as [|? ? Hp _]; subst. rewrite Forall_forall in Hwr. specialize (Hwr q Hq).
+      unfold wfps in *. lia. }
+  cbn [negb].
+  (* 6: the bases *)
+  replace (rotated_bases N off r a) with true.
+  2:{ symmetry. unfold rotated_bases. apply forallb_zrange. intros x Hx. apply eqb_true_iff.
+      fold (rot N off x).
+      destruct (in_loc x a) eqn:Ea.
+      - apply (tx_of_in (st =? -1)) in Ea. apply (tx_of_in (st =? -1)). rewrite Htx. apply in_map. exact Ea.
+      - destruct (in_loc (rot N off x) r) eqn:Er; [|reflexivity].
+        apply (tx_of_in (st =? -1)) in Er. rewrite Htx in Er. apply in_map_iff in Er as [y [Hy Hin]].
+        pose proof (tx_of_range N st (st =? -1) a Hall y Hin) as Hyr.
+        apply rot_inj in Hy; [|assumption|assumption|lia]. subst y.
+        apply (tx_of_in (st =? -1)) in Hin. congruence. }
+  cbn [negb].
+  (* 7: the bases in transcription order *)
+  replace (llen a =? N) with false by lia. cbn [negb andb].
+  unfold rotated_tx. rewrite !tx_bases_of, Hsa, Hsr, Htx.
+  replace (list_eqb Z.eqb _ _) with true; [reflexivity|].
+  symmetry. clear. induction (tx_of (st =? -1) a) as [|x t IH]; [reflexivity|].
+  cbn [map list_eqb]. unfold rot at 1. rewrite Z.eqb_refl. exact IH.
+Qed.
+
+Lemma offset_ring_tx N a off : pre_offset a (Some N) = true -> llen a <> N ->
+  exists r, offset_location a off (Some N) = Ok r /\
+    tx_bases r = map (fun x => (x + off) mod N) (tx_bases a).
+Proof.
+  intros Hpre Hlen. destruct (offset_ring_spec N a off Hpre Hlen) as [r [Hr Hc]].
+  exists r. split; [exact Hr|].
+  destruct (check_offset_ring_tx_sound N a off (Ok r) Hc Hlen) as [r' [E Ht]].
+  injection E as <-. exact Ht.
+Qed.
+
+(* the whole record: returned as it is, and it holds every base *)
+Lemma whole_record_all_bases N a : pre_offset a (Some N) = true -> llen a = N ->
+  forall x, 0 <= x < N -> in_loc x a = true.
+Proof.
+  unfold pre_offset. intros Hpre Hlen x Hx.
+  apply andb_true_iff in Hpre as [Hpre Hwf]. apply andb_true_iff in Hpre as [Hdis Hu].
+  apply andb_true_iff in Hwf as [HN Hwf].
+  destruct (wfp_of_wf_locb N a Hwf Hu) as [st [Hne Hall]].
+  assert (Hpa : Forall (fun q => ps q < pe q) a) by (eapply Forall_impl; [|exact Hall]; intros q Hq; apply Hq).
+  apply (tx_of_in false). apply (NoDup_length_incl (l := tx_of false a) (l' := zrange 0 N)).
+  - apply (disjoint_parts_tx false a Hpa). exact Hdis.
+  - unfold zrange. rewrite zrange_n_length. apply Nat2Z.inj_le. rewrite tx_of_length.
+    + lia.
+    + eapply Forall_impl; [|exact Hpa]. intros q Hq. cbn beta in Hq. lia.
+  - intros y Hy. apply zrange_spec. pose proof (tx_of_range N st false a Hall y Hy). lia.
+  - apply zrange_spec. lia.
+Qed.
+
+Lemma offset_ring_spec_whole N a off : pre_offset a (Some N) = true -> llen a = N ->
+  offset_location a off (Some N) = Ok a /\ check_offset_ring N a off (Ok a) = 0.
+Proof.
+  intros Hpre Hlen. pose proof (whole_record_all_bases N a Hpre Hlen) as Hall.
+  unfold pre_offset in Hpre.
+  apply andb_true_iff in Hpre as [Hpre Hwf]. apply andb_true_iff in Hpre as [Hdis Hu].
+  apply andb_true_iff in Hwf as [HN Hwf]. split.
+  - unfold offset_location. replace (N =? 0) with false by lia. cbn [orb].
+    destruct (off =? 0) eqn:Eoff; [unfold shifted; rewrite Eoff; reflexivity|].
+    replace (N <? 1) with false by lia. replace (llen a =? N) with true by lia. reflexivity.
+  - unfold check_offset_ring. rewrite Hwf, Hdis, Z.eqb_refl. cbn [negb].
+    replace (same_strands a a) with true.
+    2:{ symmetry. unfold same_strands. destruct a as [|p a']; [reflexivity|]. cbn [forallb].
+        rewrite Z.eqb_refl. exact Hu. }
+    cbn [negb].
+    replace (rotated_bases N off a a) with true.
+    2:{ symmetry. unfold rotated_bases. apply forallb_zrange. intros x Hx.
+        rewrite (Hall x ltac:(lia)), (Hall ((x + off) mod N)); [reflexivity|].
+        apply Z.mod_pos_bound. lia. }
+    cbn [negb]. replace (llen a =? N) with true by lia. reflexivity.
+Qed.
+
+(* specification 107 holds for the model on EVERY input that meets its precondition *)
+Lemma offset_ring_spec_all N a off : pre_offset a (Some N) = true ->
+  check_offset_ring N a off (offset_location a off (Some N)) = 0.
+Proof.
+  intros Hpre. destruct (Z.eq_dec (llen a) N) as [E|E].
+  - destruct (offset_ring_spec_whole N a off Hpre E) as [-> H]. exact H.
+  - destruct (offset_ring_spec N a off Hpre E) as [r [-> H]]. exact H.
 Qed.
